@@ -1003,6 +1003,12 @@ func run(c *core.Ctx) error {
 			if strings.Contains(res.Detail, "gate-timeout") {
 				c.Add("gate_timeouts", 1)
 			}
+			if strings.Contains(res.Detail, "late-event") {
+				c.Add("late_events", 1)
+				if c.Count("late_events") <= 2 {
+					c.Logf("late event after quiesced: %s", truncate(res.Detail, 1500))
+				}
+			}
 		}
 	}
 	keys := make([]string, 0, len(outcomes))
@@ -1135,6 +1141,31 @@ func checkProto(c *core.Ctx, cs *Case, res *Result, ps *ProtoSpec, expected [][]
 		}
 	}
 	c.Add("predictions_compared", 1)
+	if len(res.Trace) > 0 && cs.Opts.Threads > 1 {
+		nd, ndone, quiesced := 0, 0, false
+		for _, e := range res.Trace {
+			switch e.E {
+			case "dispatch":
+				nd++
+			case "done":
+				ndone++
+			case "quiesced":
+				quiesced = true
+			}
+		}
+		na := 0
+		for _, it := range ps.Stream {
+			if it == "A" {
+				na++
+			}
+		}
+		if quiesced && nd > ndone+na {
+			c.Add("trace_missing_done", 1)
+			if c.Count("trace_missing_done") <= 3 {
+				c.Logf("trace with a dispatched frame that never reached worker.done: %s", mustJSON(res.Trace))
+			}
+		}
+	}
 	if ok && (ps.Class != "" || ps.Hold >= 0) && cs.ID%211 == 0 && sampled["proto"] < 3 {
 		sampled["proto"]++
 		c.Sample(map[string]any{"kind": "proto", "stream": ps.Stream, "fault_class": ps.Class, "variant": ps.Variant, "threads": cs.Opts.Threads, "consumer": cs.Consumer, "gate_hold": ps.Hold, "delivered": got, "spec_expected": expected, "bytes": len(cs.Data)})
